@@ -2,7 +2,7 @@
 From Coq Require Import ZArith List Bool.
 From VF Require Import Async.Collector Async.CollectorProofs.
 From VF Require Import Async.StreamTypes Generated.RetryTable Async.Stream Async.StreamProofs Async.StreamProvenanceProofs
-  Async.StreamCancelProofs Async.StreamStateReplyProofs.
+  Async.StreamCancelProofs Async.StreamStateReplyProofs Async.StreamFatalProofs.
 From VF Require Import Async.Limiter Async.LimiterProofs.
 Import ListNotations.
 
@@ -375,6 +375,53 @@ Example C20_stream_example_state_reply :
   obs_reqs (mrun [] [0] [] (evs ++ [Respond 0])) = [(1, 0, 0, CreateProgJob); (3, 0, 1, GetResult)] /\
   obs_dones (mrun [] [0] [] (evs ++ [Respond 0; Process 0; Respond 0])) = [(5, 0, OReturned (RResult 0))].
 Proof. vm_compute. repeat split; repeat constructor. Qed.
+
+(* ---- whatever way the stream fails ---- *)
+
+(* a failure of the response stream that is not a google API error at all is never retried - whatever the regenerated
+   is_retryable column says about it - and reaches the submitter, whether the server had handled the request or not ... *)
+Theorem C20_foreign_failure_surfaces_client : forall f s zs cur fs x, is_api x = false ->
+  out_of (client (S f) s zs cur (BreakBefore x :: fs)) = RaisedExn x /\
+  out_of (client (S f) s zs cur (BreakAfter x :: fs)) = RaisedExn x.
+Proof. exact foreign_failure_surfaces_client. Qed.
+Print Assumptions C20_foreign_failure_surfaces_client.
+
+(* ... and, in the manager, every submitter that was in flight, as that very failure *)
+Theorem C20_foreign_failure_surfaces : forall pp pj fl evs x e,
+  is_api x = false -> running (mrun pp pj fl evs) e ->
+  exists y, nth_error (execs (mrun pp pj fl (evs ++ [Break x]))) e = Some y /\ est y = Finished (ORaisedExn x).
+Proof. exact foreign_failure_surfaces. Qed.
+Print Assumptions C20_foreign_failure_surfaces.
+
+(* after a failure that is not retryable nobody is left waiting, nothing stays subscribed, no response is outstanding and
+   no request is live *)
+Theorem C20_fatal_break_quiesces : forall pp pj fl evs x, retryable x = false ->
+  let m' := mrun pp pj fl (evs ++ [Break x]) in
+  (forall e, ~ running m' e) /\ subs m' = [] /\ pending m' = [] /\ live_ids m' = [].
+Proof. exact fatal_break_quiesces. Qed.
+Print Assumptions C20_fatal_break_quiesces.
+
+(* and the manager is usable again: the next submit is running, the only subscriber, its request the only live one *)
+Theorem C20_usable_after_fatal_break : forall pp pj fl evs x p, retryable x = false ->
+  let m1 := mrun pp pj fl (evs ++ [Break x]) in
+  let m2 := mrun pp pj fl (evs ++ [Break x; Submit p]) in
+  let e := length (execs m1) in
+  running m2 e /\ waits m2 e (next_id m1) /\ subs m2 = [(next_id m1, e)] /\ live_ids m2 = [next_id m1] /\ pending m2 = [] /\
+  forall e', running m2 e' -> e' = e.
+Proof. exact usable_after_fatal_break. Qed.
+Print Assumptions C20_usable_after_fatal_break.
+
+(* non-vacuity: the exception that is not an API error; two jobs in flight when it strikes, a third one afterwards *)
+Example C20_stream_example_foreign_failure :
+  is_api XRuntimeError = false /\ retryable XRuntimeError = false /\
+  running (mrun [] [] [] [Submit 0; Submit 1; Process 0]) 0 /\ running (mrun [] [] [] [Submit 0; Submit 1; Process 0]) 1 /\
+  let m := mrun [] [] [] [Submit 0; Submit 1; Process 0; Break XRuntimeError; Submit 2; Process 1; Respond 0] in
+  obs_dones m = [(4, 0, ORaisedExn XRuntimeError); (4, 1, ORaisedExn XRuntimeError); (7, 2, OReturned (RResult 2))].
+Proof.
+  split; [reflexivity|]. split; [reflexivity|].
+  split; [eexists; split; [vm_compute; reflexivity|reflexivity]|]. split; [eexists; split; [vm_compute; reflexivity|reflexivity]|].
+  vm_compute. reflexivity.
+Qed.
 
 (* ---- ProcessorSampler(max_concurrent_jobs): every run of callers, job creations, job completions and returns ---- *)
 
